@@ -137,3 +137,26 @@ func GoodBlankMask(pattern []byte, blank byte) uint64 {
 	}
 	return wild
 }
+
+// FIXEDARRAY
+func BadFixedScratch(parent []int, x int) int {
+	var path [8]int
+	n := 0
+	for parent[x] >= 0 {
+		path[n] = x
+		n++
+		x = parent[x]
+	}
+	return x + n
+}
+
+func GoodFixedScratch(parent []int, x int) int {
+	var path [8]int
+	n := 0
+	for parent[x] >= 0 && n < len(path) {
+		path[n] = x
+		n++
+		x = parent[x]
+	}
+	return x + n
+}
